@@ -47,6 +47,7 @@ def strategy(tier):
         st.lists(rec, max_size=6).map(lambda r: ["statp", r]),
         st.lists(rec, max_size=6).map(lambda r: ["statp", r]),
         st.just(["statp", []]),
+        st.tuples(st.integers(0, 55), st.integers(0, 300)).map(lambda t: ["bigstatp", t[0], t[1]]),
         st.tuples(pos, st.integers(0, 255)).map(lambda t: ["simset", min(t[0], 1023), t[1]]),
         st.tuples(pos, st.binary(min_size=1, max_size=4).map(bytes.hex)).map(lambda t: ["simpoke", t[0], t[1]]),
         st.just(["refresh"]),
@@ -384,7 +385,20 @@ def _run_threaded(res, case):
                 res.fail("C05|ack-sequence|threaded", f"acknowledgement {a!r}")
 
 
+def _expand(case):
+    """["bigstatp", a, b] -> one ordinary message with (nearly) as many records as its count byte allows (a datagram of well over 1 kB)"""
+    ops = []
+    for op in case["ops"]:
+        if op[0] == "bigstatp":
+            n_rec = 200 + int(op[1]) % 56
+            ops.append(["statp", [[(257 + int(op[2]) * 2 + i * 3) % (BLOCK - 2), bytes([(i * 7 + int(op[2])) & 255, (i * 3 + 1) & 255]).hex()] for i in range(n_rec)]])
+        else:
+            ops.append(op)
+    return dict(case, ops=ops)
+
+
 def run_case(case) -> Result:
+    case = _expand(case)
     res = Result()
     k = case.get("k")
     if k == "async":
